@@ -1,5 +1,6 @@
 """C18: determinism.  Three ties to the code, all on every run:
-(a) SOURCE SCAN of <REPO>/src (comments, hence doc-tests, removed; string literals kept): no hashing
+(a) SOURCE SCAN of <REPO>/src (comments, hence doc-tests, removed; string literals kept) and of the
+    [dependencies] of Cargo.toml (only the optional serde pair): no hashing
     containers, threads, clocks, environment, mutable or interior-mutable statics, atomics,
     randomness sources, pointer-to-integer conversions, {:p} formatting; `ptr::eq` exactly once, in
     differentiation::record_operations::same_lists (the occurrence Model/Determinism.v accounts
@@ -238,6 +239,21 @@ def scan_sources():
                     if not ALLOWED_TRANSMUTE.search(line):
                         hits.append({"file": rel, "line": ln, "what": "transmute other than the reference-lifetime cast of the mutable iterators",
                                      "text": line.strip()[:160]})
+    # the crate's own (non-dev) dependencies: only the optional serde pair -- no dependency can smuggle in
+    # a hasher, a clock or a thread pool
+    try:
+        cargo = open(os.path.join(vlib.REPO, "Cargo.toml")).read()
+        sec = re.search(r"(?ms)^\[dependencies\]\s*$(.*?)(?=^\[|\Z)", cargo)
+        deps = re.findall(r"(?m)^\s*([A-Za-z0-9_-]+)\s*=\s*(.*)$", sec.group(1)) if sec else []
+        stats["dependencies"] = [d for d, _ in deps]
+        for name, spec in deps:
+            if name not in ("serde", "serde_arrays") or "optional = true" not in spec:
+                hits.append({"file": "Cargo.toml", "line": 0, "what": "non-optional or unknown dependency of the library (not covered by the scan)",
+                             "text": "%s = %s" % (name, spec[:100])})
+        if re.search(r"(?m)^default\s*=\s*\[\s*[^\]\s]", cargo):
+            hits.append({"file": "Cargo.toml", "line": 0, "what": "a default feature is enabled", "text": re.search(r"(?m)^default\s*=.*$", cargo).group(0)})
+    except OSError:
+        pass
     if len(stats["ptr_eq"]) != 1:
         hits.append({"file": "src/differentiation/record_operations.rs", "line": 0,
                      "what": "expected exactly one ptr::eq (in same_lists), found %d" % len(stats["ptr_eq"]), "text": "; ".join(stats["ptr_eq"])})
